@@ -2,7 +2,7 @@
    Only statements closed by `exact`; proofs live in Avoid/Nudge.v (region model) and Avoid/NudgeScene.v (scene checker).
    The VPSC solver is a parameter of the region model; `solver_contract` is property C01's statement. *)
 From Coq Require Import QArith List Bool ZArith.
-From Adapt Require Import Num.Qaux Vpsc.VpscSpec Vpsc.Feas Avoid.NudgeModel Avoid.Nudge Avoid.NudgeScene Avoid.NudgeRelModel Avoid.NudgeRel.
+From Adapt Require Import Num.Qaux Vpsc.VpscSpec Vpsc.Feas Avoid.NudgeModel Avoid.Nudge Avoid.NudgeScene Avoid.NudgeRelModel Avoid.NudgeRel Avoid.NudgeMember.
 Import ListNotations.
 Local Open Scope Q_scope.
 
@@ -159,3 +159,62 @@ Theorem C10_cp_limit_keeps pos mn mx c far p' :
   (far <= c /\ c <= p') \/ (p' <= c /\ c <= far).
 Proof. exact (cp_limit_keeps pos mn mx c far p'). Qed.
 Print Assumptions C10_cp_limit_keeps.
+
+(* ---- immovable members and completeness of the regions (seeded change C10-6: fixed routes; DESIGN 9.13).
+   (1) an immovable member of a satisfied nudging-stage region keeps its position and the movable segments that overlap
+       it end at least the final (possibly reduced) separation away from it;
+   (2) every positive-length segment of every connector's display route (fixed-route connectors are connectors like any
+       other) that lies in the shift dimension is an expected member of the pass, and when the dumped segment list covers
+       the expected members (members_covered: decided on every run from hook H1b's AROUTE / ASEG records) every expected
+       member lies in one of the regions the (total, permutation) collection forms. *)
+Theorem C10_nudge_immovable_member_post solver fuel R o i j :
+  solver_contract solver ->
+  nudge_region solver fuel R = NOk o -> o_sat o = true -> runify R = false ->
+  (j < i)%nat -> (i < length (rsegs R))%nat ->
+  r_ov (rel_of R i j) = true -> r_sa (rel_of R i j) = false -> r_ca (rel_of R i j) = false ->
+  (rnsp R = true \/ r_sh (rel_of R i j) = false) -> 0 < rbase R ->
+  let g := gen R in let si := seg_of R i in let sj := seg_of R j in
+  let xi := nth (seg_var g i) (o_xs o) 0 in let xj := nth (seg_var g j) (o_xs o) 0 in
+  let wi := nth i (o_pos o) 0 in let wj := nth j (o_pos o) 0 in
+  (o_sep o = rbase R \/ SAT_TOL < o_sep o) /\
+  (plain_fixed sj -> sfixed si = false ->
+     wj = spos sj /\
+     exists k c, nth_error (o_cs o) k = Some c /\ cl c = seg_var g j /\ cr c = seg_var g i /\ o_sep o <= gap c /\
+       (nth_error (o_flags o) k = Some false ->
+          spos sj + o_sep o <= xi + SAT_TOL + TOL10 /\
+          forall d, 0 <= d -> smin si - d <= xi -> xi <= smax si + d -> spos sj + o_sep o <= wi + SAT_TOL + TOL10 + d)) /\
+  (plain_fixed si -> sfixed sj = false ->
+     wi = spos si /\
+     exists k c, nth_error (o_cs o) k = Some c /\ cl c = seg_var g j /\ cr c = seg_var g i /\ o_sep o <= gap c /\
+       (nth_error (o_flags o) k = Some false ->
+          xj + o_sep o <= spos si + SAT_TOL + TOL10 /\
+          forall d, 0 <= d -> smin sj - d <= xj -> xj <= smax sj + d -> wj + o_sep o <= spos si + SAT_TOL + TOL10 + d)).
+Proof. exact (fun Hc => nudge_immovable_member_post solver Hc fuel R o i j). Qed.
+Print Assumptions C10_nudge_immovable_member_post.
+
+Theorem C10_pass_members_complete dim routes c l k a b :
+  In (c, l) routes ->
+  nth_error l k = Some a -> nth_error l (S k) = Some b ->
+  coord dim a == coord dim b -> ~ coord (negb dim) a == coord (negb dim) b ->
+  exists m, In (c, m) (pass_members dim routes) /\ is_member_of dim k a b m.
+Proof. exact (pass_members_complete dim routes c l k a b). Qed.
+Print Assumptions C10_pass_members_complete.
+
+Theorem C10_members_in_groups nc fspp dim routes segs gs :
+  members_covered dim routes segs = true ->
+  seg_groups nc fspp (indexed (map fst segs)) = Some gs ->
+  forall c m, In (c, m) (pass_members dim routes) ->
+  exists g i x, In g gs /\ In (i, fst x) g /\ nth_error segs i = Some x /\ mem_matches c m x = true.
+Proof. exact (members_in_groups nc fspp dim routes segs gs). Qed.
+Print Assumptions C10_members_in_groups.
+
+Theorem C10_groups_disjoint nc fspp (l : list seg) gs :
+  seg_groups nc fspp (indexed l) = Some gs -> NoDup (concat gs).
+Proof. exact (groups_disjoint nc fspp gs). Qed.
+Print Assumptions C10_groups_disjoint.
+
+Theorem C10_members_only_sound dim routes segs :
+  members_only dim routes segs = true ->
+  forall x, In x segs -> exists c m, In (c, m) (pass_members dim routes) /\ mem_matches c m x = true.
+Proof. exact (members_only_sound dim routes segs). Qed.
+Print Assumptions C10_members_only_sound.
